@@ -272,6 +272,28 @@ B("kernel-shift_left_small-zero-amount", ["C15"],
 N("kernel-shift_left_small-zero-amount-match-form", ["C15"],
   [("src/algorithms/shift.rs", "pub fn shift_left_small(limbs: &mut [u64], amount: usize) -> u64 {\n    debug_assert!(amount < 64);\n    if amount == 0 {\n        return 0;\n    }\n", "pub fn shift_left_small(limbs: &mut [u64], amount: usize) -> u64 {\n    debug_assert!(amount < 64);\n    match amount {\n        0 => return 0,\n        _ => {}\n    }\n")])
 
+# ---- R-CODEC/der-length (C16) (seed C16d, re-created) and benign re-spelling
+B("der-length-bound-without-sign-byte", ["C16"],
+  [("src/support/der.rs", "        if header.length > Length::try_from(Self::BYTES + 1)? {", "        if header.length > Length::try_from(Self::BYTES)? {")], "decode_value|length-bound")
+N("der-length-bound-hoisted", ["C16", "C17"],
+  [("src/support/der.rs", "        if header.length > Length::try_from(Self::BYTES + 1)? {", "        let longest = 1 + Self::BYTES;\n        let limit = Length::try_from(longest)?;\n        if header.length > limit {")])
+# ---- R-FACADE: the delegate call inside a closure handed to a combinator
+N("idiom-shl-uint-map_or", ["C05", "C20"],
+  [("src/bits.rs", "        match usize::try_from(rhs) {\n            Ok(rhs) => self.wrapping_shl(rhs),\n            Err(_) => Self::ZERO,\n        }", "        usize::try_from(rhs).map_or(Self::ZERO, |rhs| self.wrapping_shl(rhs))")])
+B("facade-shl-uint-map_or-wrong-direction", ["C05"],
+  [("src/bits.rs", "        match usize::try_from(rhs) {\n            Ok(rhs) => self.wrapping_shl(rhs),\n            Err(_) => Self::ZERO,\n        }", "        usize::try_from(rhs).map_or(Self::ZERO, |rhs| self.wrapping_shr(rhs))")], "Shl")
+# ---- interval engine: `len - 1 - i` under `i < len`; from_fn callback index; otherwise-edge
+N("idiom-be-slice-index-from-end", ["C08", "C17"],
+  [("src/bytes.rs", "        let mut c = bytes.len();\n        while i < bytes.len() {\n            c -= 1;\n            let (limb, byte) = (i / 8, i % 8);\n            limbs[limb] += (bytes[c] as u64) << (byte * 8);", "        let len = bytes.len();\n        while i < len {\n            let (limb, byte) = (i / 8, i % 8);\n            limbs[limb] += (bytes[len - 1 - i] as u64) << (byte * 8);")])
+B("be-slice-index-from-end-off-by-one", ["C08"],
+  [("src/bytes.rs", "        let mut c = bytes.len();\n        while i < bytes.len() {\n            c -= 1;\n            let (limb, byte) = (i / 8, i % 8);\n            limbs[limb] += (bytes[c] as u64) << (byte * 8);", "        let len = bytes.len();\n        while i < len {\n            let (limb, byte) = (i / 8, i % 8);\n            limbs[limb] += (bytes[len - i] as u64) << (byte * 8);")], "try_from_be_slice")
+N("idiom-select-from_fn", ["C20"],
+  [("src/support/subtle.rs", "        let mut limbs = [0_u64; LIMBS];\n        for (limb, (a, b)) in limbs\n            .iter_mut()\n            .zip(a.as_limbs().iter().zip(b.as_limbs().iter()))\n        {\n            *limb = u64::conditional_select(a, b, choice);\n        }\n        Self::from_limbs(limbs)", "        Self::from_limbs(core::array::from_fn(|i| {\n            u64::conditional_select(&a.limbs[i], &b.limbs[i], choice)\n        }))")])
+N("idiom-ct_eq-accumulating-loop", ["C20"],
+  [("src/support/subtle.rs", "        self.as_limbs().ct_eq(rhs.as_limbs())", "        let mut equal = Choice::from(1);\n        for (l, r) in self.as_limbs().iter().zip(rhs.as_limbs().iter()) {\n            equal &= l.ct_eq(r);\n        }\n        equal")])
+B("sibling-ct_eq-ignores-rhs", ["C20"],
+  [("src/support/subtle.rs", "        self.as_limbs().ct_eq(rhs.as_limbs())", "        let _ = rhs;\n        self.as_limbs().ct_eq(self.as_limbs())")], "ct_eq")
+
 # ---- R-TOTAL/overflow-checks on C16 (defect F16, re-created)
 B("ovf-scale-size_hint-256-bit-formula", ["C16"],
   [("src/support/scale.rs", "            _ => self.0.byte_len() + 1,\n", "            _ => (32 - self.0.leading_zeros() / 8) + 1,\n")], "Overflow(Sub:32")
